@@ -630,6 +630,7 @@ class C18Check(object):
                 n = min(len(ops), n * 2)
         # argument simplification
         simplifications = [
+            lambda c: c.pop("validate_model", None),
             lambda c: c.update(peer={"permute": None, "chunk": 256}),
             lambda c: c.update(initial_globals=dict(env.DEFAULT_VECTOR)),
             lambda c: [g.update(renumber=False, rotate=False) for g in c["grids"]],
